@@ -252,6 +252,26 @@ pub fn c02_corpus<V: Fv>(seed: u64, thorough: bool, out: &mut Shards) {
     out.emit(boundary_event::<V>(&mut rng, 2 * V::BOUND, 1, -1, 4, "norm-double"));
     out.emit(edge_event::<V>(&mut rng, true, "centred-edge-plus"));
     out.emit(edge_event::<V>(&mut rng, false, "centred-edge-minus"));
+    // --- sequences on one thread: a rejected (malformed, partially decodable) signature, then an honest one, then the malformed
+    // one again, then an honest one under another key (state kept between verify calls)
+    {
+        let msg = b"sequence".to_vec();
+        let sig = V::sig_to_bytes(&V::sign(&msg, &keys[0].0));
+        let mut bad = sig.clone();
+        for b in bad.iter_mut().skip(41 + 200) {
+            *b = 0;
+        }
+        let mut bad2 = sig.clone();
+        let l = bad2.len();
+        bad2[l - 1] |= 1;
+        let pk_a = V::pk_to_bytes(&keys[0].1);
+        let pk_b = V::pk_to_bytes(&keys[1 % keys.len()].1);
+        let sig_b = V::sig_to_bytes(&V::sign(&msg, &keys[1 % keys.len()].0));
+        for (s, p, tag) in [(&bad, &pk_a, "seq-malformed"), (&sig, &pk_a, "seq-honest-after-malformed"), (&bad2, &pk_a, "seq-padding"),
+                            (&sig_b, &pk_b, "seq-honest-other-key"), (&bad, &pk_b, "seq-malformed"), (&sig, &pk_a, "seq-honest-again")] {
+            out.emit(verify_event::<V>(&msg, s, p, tag));
+        }
+    }
     // --- degenerate public keys
     {
         let msg = b"degenerate".to_vec();
